@@ -205,6 +205,15 @@ class UnitEval:
                         "fmt", "to_string", "signum", "is_sign_negative", "is_sign_positive", "get", "contains_key",
                         "index", "real", "lat", "lon", "from_residual", "from_output", "into", "from"):
                 return "other"
+            if t[1].startswith("inner_op::") and self.cx.f.has_fn(t[1]) and depth < 30 and any(u.startswith("deg") for u in args):
+                # a helper of the operator's own module: what it does with the value decides (it may well convert it)
+                import elems as E
+                try:
+                    r = E.inline_call(self.f, t, None)
+                except Exception:
+                    r = None
+                if r is not None:
+                    return self.unit(r, depth + 1)
             for u in args:
                 if u.startswith("deg"):
                     what = "trigonometric function" if tail in TRIG else "function"
